@@ -83,6 +83,36 @@ def norm(e):
     return re.sub(r"\s+", "", e)
 
 
+def local_aliases(body):
+    """`T name = expr;` declarations of a function body -> [(name, expr, position of the declaration)]; a name that is
+    declared twice or assigned again is not an alias"""
+    found = {}
+    for m in re.finditer(r"(?:^|[;{}])\s*(?:[A-Za-z_][\w:]*(?:\s*<[^;{}=]*>)?[\s\*&]+)+?([A-Za-z_]\w*)\s*=(?!=)\s*([^;{}]+);", body):
+        name, expr = m.group(1), m.group(2).strip()
+        found.setdefault(name, []).append((expr, m.start(1)))
+    out = []
+    for name, lst in found.items():
+        reassigned = re.search(r"(?<![\w.>])" + re.escape(name) + r"\s*(?:[-+*/|&^]?=(?!=)|\+\+|--)", body[lst[0][1] + len(name):].split(";", 1)[1] if ";" in body[lst[0][1]:] else "")
+        if len(lst) == 1 and not reassigned:
+            out.append((name, lst[0][0], lst[0][1]))
+    return out
+
+
+def resolve_aliases(arg, aliases, body, use_pos):
+    """substitute (repeatedly, bounded) the locals declared before `use_pos` into `arg`"""
+    for _ in range(4):
+        changed = False
+        for name, expr, pos in aliases:
+            if pos >= use_pos:
+                continue
+            new = re.sub(r"(?<![\w.>:])" + re.escape(name) + r"\b(?!\s*\()", lambda _m, e=expr: e, arg)
+            if new != arg:
+                arg, changed = new, True
+        if not changed:
+            break
+    return arg
+
+
 def extract(repo, failures):
     d = {}
     src = strip_cpp_comments(read(repo, "include/quill/backend/PatternFormatter.h"))
@@ -156,9 +186,13 @@ def extract(repo, failures):
                             break
                     j += 1
                 guards.append((g.group(1), g.end(), j))
+            # locals that merely name an expression (`char const* const tags = log_statement_metadata.tags();`) are
+            # resolved before the argument is classified: what the model fixes is which attribute is set, in which
+            # order, under which guard, from which source — not the shape of the statement that does it
+            aliases = local_aliases(fb)
             for mm in re.finditer(r"_set_arg_val\s*<\s*Attribute::(\w+)\s*>\s*\(", fb):
                 end = matching_paren(fb, mm.end() - 1)
-                arg = fb[mm.end():end].strip()
+                arg = resolve_aliases(fb[mm.end():end].strip(), aliases, fb, mm.start())
                 canon = "?"
                 for rx, nm in ATTR_SOURCES:
                     if re.search(rx, arg):
